@@ -551,6 +551,9 @@ class Interp:
             if isinstance(a, Const) and isinstance(b, Sym) and b.origin and b.origin[0] in ("upper", "lower", "casefold") \
                     and isinstance(b.origin[1], Sym) and b.origin[1].distinct:
                 return False
+            if isinstance(a, Const) and isinstance(a.v, str) and isinstance(b, Sym) and b.origin and (
+                    (b.origin[0] == "upper" and a.v != a.v.upper()) or (b.origin[0] in ("lower", "casefold") and a.v != a.v.lower())):
+                return False  # an upper-cased text never equals a constant with a lower-case letter (and vice versa)
             if isinstance(a, Const) and isinstance(b, (Sym, Str)):
                 if isinstance(a.v, str) and a.v == "" and (isinstance(b, Str) and b.nonempty() or isinstance(b, Sym) and b.truthy):
                     return False
@@ -816,8 +819,12 @@ class Interp:
             if a == "expressions" and isinstance(v, Const) and v.v is None:
                 return Lst([])
             return v
-        if a in ("name", "db", "catalog", "alias", "alias_or_name"):
-            slot = {"name": "this", "db": "db", "catalog": "catalog", "alias": "alias", "alias_or_name": "this"}[a]
+        if a == "name" and n.cls == "Table" and not n.open and "this" not in n.args:
+            # sqlglot's Table.name is `self.this.name`: a table expression without `this` (DROP SCHEMA s) raises here
+            self.effect("none-deref", "name", site)
+            raise _Raise(ExcV("builtins.AttributeError", {}, [Const("'NoneType' object has no attribute 'name'")]))
+        if a in ("name", "db", "catalog", "alias", "alias_or_name", "table") and not (a == "table" and n.cls not in (None, "Column")):
+            slot = {"name": "this", "db": "db", "catalog": "catalog", "alias": "alias", "alias_or_name": "this", "table": "table"}[a]
             inner = self.node_arg(n, slot)
             return self.text_of(inner, n, a)
         if a == "parent":
@@ -1019,9 +1026,40 @@ class Interp:
                 self.effect("construct", cls, a, site)
                 return n
             o = Obj(f"{cls}@{self.siteid(site)}", cls=(mod, cls))
-            if any(isinstance(dd, ast.Name) and dd.id == "dataclass" for dd in cdef.decorator_list) or any(
-                isinstance(b, ast.Name) and b.id == "Exception" for b in cdef.bases
-            ) and not self.find_method(mod, cls, "__init__"):
+            is_dc = any("dataclass" in norm(dd) for dd in cdef.decorator_list)
+            is_exc = any(isinstance(b, ast.Name) and b.id in ("Exception", "BaseException") for b in cdef.bases)
+            if is_dc and not is_exc and not self.find_method(mod, cls, "__init__"):
+                # a dataclass: the generated __init__ stores the arguments / per-instance defaults of the annotated fields
+                self.effect("new", d, args, kwargs, site, o)
+                menv = self.modenv(mod)
+                pos = list(args)
+                for st_ in cdef.body:
+                    if not (isinstance(st_, ast.AnnAssign) and isinstance(st_.target, ast.Name)) or "ClassVar" in norm(st_.annotation):
+                        continue
+                    fname, val, init_ok = st_.target.id, None, True
+                    dv = st_.value
+                    if isinstance(dv, ast.Call) and norm(dv.func).split(".")[-1] == "field":
+                        fkw = {k.arg: k.value for k in dv.keywords if k.arg}
+                        init_ok = not (isinstance(fkw.get("init"), ast.Constant) and fkw["init"].value is False)
+                        if "default_factory" in fkw:
+                            val = self.call(self.ev(fkw["default_factory"], menv), [], {}, dv, menv)
+                        elif "default" in fkw:
+                            val = self.ev(fkw["default"], menv)
+                    elif dv is not None:
+                        val = self.ev(dv, menv)
+                    if init_ok and fname in kwargs:
+                        val = kwargs[fname]
+                    elif init_ok and pos:
+                        val = pos.pop(0)
+                    if val is None:
+                        val = Sym(f"{cls}.{fname}")
+                    o.attrs[fname] = val
+                    self.effect("store", o, fname, val, st_)
+                post = self.find_method(mod, cls, "__post_init__")
+                if post is not None:
+                    self.call_func(Func(post[0], post[1], post[2], self_val=o), [], {}, site)
+                return o
+            if (is_dc or is_exc) and not self.find_method(mod, cls, "__init__"):
                 fields = [s.target.id for s in cdef.body if isinstance(s, ast.AnnAssign) and isinstance(s.target, ast.Name)]
                 kw = dict(kwargs)
                 for i, v in enumerate(args):
@@ -1141,6 +1179,9 @@ class Interp:
         if b in ("tuple", "list", "set", "sorted", "iter", "frozenset"):
             if a0 is None:
                 return Lst([])
+            if isinstance(a0, Dct) and not getattr(a0, "shared_name", None):
+                keys = [a0.keyvals.get(k, Const(k)) for k in a0.items]  # iterating a dict gives its keys
+                return Lst(keys) if b != "tuple" else Tup(keys)
             if isinstance(a0, (Tup, Lst)):
                 return Lst(a0.items, open=getattr(a0, "open", False)) if b != "tuple" else Tup(a0.items)
             if isinstance(a0, Seq):
@@ -1148,7 +1189,23 @@ class Interp:
             return Sym(f"{b}({tagof(a0)})", origin=("call", b, args, kwargs))
         if b == "dict":
             return Dct(kwargs) if not args else (a0 if isinstance(a0, Dct) else Sym(f"dict({tagof(a0)})"))
+        if b == "format" and a0 is not None:
+            spec = args[1].v if len(args) > 1 and isinstance(args[1], Const) else ""
+            if not spec:
+                p_ = self.to_strpart(a0)
+                return Const(p_) if isinstance(p_, str) else p_
+            if isinstance(a0, Const):
+                try:
+                    return Const(format(a0.v, spec))
+                except (TypeError, ValueError):
+                    pass
+            return Sym(f"format({tagof(a0)},{spec!r})", origin=("format", a0, spec), typ="str", truthy=True)  # == f"{a0:{spec}}"
         if b == "enumerate":
+            start = kwargs.get("start", args[1] if len(args) > 1 else None)
+            if isinstance(start, Const) and isinstance(start.v, int) and start.v != 0:
+                inner = self.iter_values(a0, site)
+                if inner is not None:
+                    return Lst([Tup([Const(start.v + i), x]) for i, x in enumerate(inner)])
             return Sym(f"enumerate({tagof(a0)})", origin=("enumerate", a0))
         if b in ("any", "all"):
             if isinstance(a0, (Tup, Lst)) and not getattr(a0, "open", False):
@@ -1450,10 +1507,13 @@ class Interp:
     def str_method(self, recv, name, args, kwargs, site):
         a0 = args[0] if args else None
         if isinstance(recv, Const) and isinstance(recv.v, str) and all(isinstance(a, Const) for a in args) and not kwargs:
-            if name in ("upper", "lower", "strip", "startswith", "endswith", "split", "replace", "casefold", "lstrip",
-                        "rstrip", "isdigit"):
+            if name in ("upper", "lower", "strip", "startswith", "endswith", "split", "rsplit", "replace", "casefold", "lstrip",
+                        "rstrip", "isdigit", "partition", "rpartition", "removeprefix", "removesuffix", "title", "capitalize",
+                        "isalpha", "isalnum", "isupper", "islower", "isidentifier", "count", "find", "index", "zfill"):
                 try:
                     r = getattr(recv.v, name)(*[a.v for a in args])
+                    if isinstance(r, tuple):
+                        return Tup([Const(x) for x in r])
                     return Lst([Const(x) for x in r]) if isinstance(r, list) else Const(r)
                 except TypeError:
                     return None
@@ -1893,6 +1953,18 @@ class Interp:
         if isinstance(t, ast.Attribute):
             base = self.ev(t.value, env)
             if isinstance(base, Obj):
+                if base.cls:
+                    setter = self.prog.modules[base.cls[0]].functions.get(f"{base.cls[1]}.{t.attr}.setter") if base.cls[0] in self.prog.modules else None
+                    getter = self.find_method(base.cls[0], base.cls[1], t.attr) if setter is not None else None
+                    if setter is not None and getter is not None and is_property(getter[2]):
+                        # a property with a setter: what the attribute reads afterwards is what the getter returns
+                        self.call_func(Func(base.cls[0], f"{base.cls[1]}.{t.attr}.setter", setter, self_val=base), [v], {}, site or t)
+                        held = base.attrs.pop(t.attr, None)
+                        try:
+                            v = self.call_func(Func(getter[0], getter[1], getter[2], self_val=base), [], {}, site or t)
+                        finally:
+                            if held is not None and t.attr not in base.attrs:
+                                base.attrs[t.attr] = held
                 base.attrs[t.attr] = v
                 self.effect("store", base, t.attr, v, site or t)
                 return
